@@ -16,6 +16,28 @@ ASSUME = ['C++ initialises members in declaration order whatever the order of th
           'partial: the meaning of the emitted constructor/FacilitiesCheck text is validated by running it, not proved']
 
 
+def init_order_problem(hh, cc):
+    """C++ initialises members in declaration order: every mem-initialiser of the generated constructor may only use members
+    declared earlier in the generated struct (theorem C09_facility_members_initialised_in_dependency_order, here applied to the
+    implementation's own text)"""
+    import re
+    if 'private:' not in hh:
+        return None
+    decl = re.findall(r'^\s+[^()\n/]*?\b(m_\w+);\s*$', hh[hh.index('private:'):], re.M)
+    m = re.search(r'^\s*:\s(.*?)^\{', cc, re.M | re.S)
+    if not m:
+        return None
+    for ini in re.split(r'\n\s*,\s', m.group(1)):
+        mm = re.match(r'\s*(m_\w+)\((.*)\)\s*$', ini, re.S)
+        if not mm or mm.group(1) not in decl:
+            continue
+        for dep in re.findall(r'\bm_\w+', mm.group(2)):
+            if dep in decl and decl.index(dep) >= decl.index(mm.group(1)):
+                return f'member {mm.group(1)} is initialised from {dep}, which is declared after it (declaration order {decl})'
+    return None
+
+
+
 def main(argv):
     tier, seed = tier_seed(argv)
     rep = Report('C09', tier, seed)
@@ -42,6 +64,11 @@ def main(argv):
                     nv += 1
                     rep.violation(f'correspondence legA:Builder.build broken: {tp}', {'file': c['file'], 'configuration': c['cfg']}, failing_input=False)
                 continue
+            iop = init_order_problem(i[1][0][1], i[1][1][1])
+            if iop and nv < 5:
+                nv += 1
+                rep.violation(f'initialisation order of the generated shell: {iop}: the member is used before it is constructed',
+                              {'file': c['file'], 'configuration': c['cfg']})
             jobs.append((ci, c, i[1], pl, tp))
 
         def work(job):
